@@ -9,6 +9,7 @@ import QmiModel.Props.C11
 #print axioms QmiModel.C11.closure_sound
 #print axioms QmiModel.C11.no_lost_wakeup
 #print axioms QmiModel.C11.no_thread_error_and_flag_set
+#print axioms QmiModel.C11.no_deadlock
 #print axioms QmiModel.C11.wait_after_stop_does_not_park
 #print axioms QmiModel.C11.released_with_stop_exception
 #print axioms QmiModel.C11.sleep_interruptible
